@@ -7,7 +7,7 @@ ALL = ["C%02d" % i for i in range(1, 53)]
 
 CLAIMED = {
  "C45": dict(
-   text="Kernel: location type IDs round-trip: for address locations (arbitrary 8 address bytes), transaction/script locations (three arbitrary ID bytes), string and identifier locations (1..3 arbitrary bytes without '.'), each with a qualified identifier of 0..3 arbitrary bytes, Location.TypeID followed by the kind's decoder returns the same location and the same qualified identifier (address locations: the contract name is its first component), without crashing; hex encoding/decoding and strings.SplitN run from source.",
+   text="Kernel: location type IDs round-trip: for address locations (arbitrary 8 address bytes), transaction/script locations (three arbitrary ID bytes), string and identifier locations (0..3 arbitrary bytes without '.'), each with a qualified identifier of 0..3 arbitrary bytes, Location.TypeID followed by the kind's decoder returns the same location and the same qualified identifier (address locations: the contract name is its first component), without crashing; hex encoding/decoding and strings.SplitN run from source.",
    note="Bounds as stated. Locations containing '.', the decoder dispatch table, type IDs and conversions of sema/static/external type graphs and run-time type constructors are outside the claim.",
    design="5 C45"),
  "C42": dict(
